@@ -130,7 +130,24 @@ pub fn oracle(c: &MsgCase, obs: &mut Obs) -> Vec<Violation> {
     let mt = c.msg.mt.clone();
     let mut msg = c.msg.clone();
     if let Err(tag) = canonicalise(&mut msg) {
+        // the field's own parse / serialise pair does not reproduce this documented-format content: the
+        // message cannot be reproduced byte for byte either. Reported once per tag (the field-level
+        // analysis is C05's); the rest of the message is not judged.
         obs.excluded(&format!("field-level-defect:{tag}"));
+        let content = c
+            .msg
+            .fields
+            .iter()
+            .find(|f| f.tag == tag)
+            .map(|f| f.content.clone())
+            .unwrap_or_default();
+        out.push(viol(
+            format!("C03|field-not-reproduced|{tag}"),
+            format!(
+                "field {tag} with the documented-format content {:?} is rejected or re-emitted differently by its own parser / serialiser",
+                content
+            ),
+        ));
         return out;
     }
     let text = msg.text(c.crlf, c.wrapper);
@@ -264,7 +281,7 @@ pub fn oracle(c: &MsgCase, obs: &mut Obs) -> Vec<Violation> {
 pub fn run(ctx: &Ctx) {
     ctx.add_rule("per message type (30): messages generated from the independent layout table (harness/src/layout.rs) — optional subsets, option letters, 0..max repetitions with boundary bias, field contents from the field format table with boundary lengths/values (one message in four carries, in a multi-option slot, a content shaped like another option of the family), LF/CRLF, wrapper/test style; non-trivial = has an optional field, a second sequence occurrence or a multi-option slot; distinct by text");
     ctx.assume("layout table transcribed from struct docs / documented parse order of /repo/src/messages and SR2025; where they differ the library's documentation is followed");
-    ctx.assume("numeric components are first put into the field's own canonical spelling by that field's parse/to_swift_string; messages containing a field whose own parser mishandles the content are excluded (counted) — that is C05's finding");
+    ctx.assume("numeric components are first put into the field's own canonical spelling by that field's parse/to_swift_string; a message containing a field whose own parser / serialiser does not reproduce the content is reported once per tag (field-not-reproduced) and not judged further — the field-level analysis is C05's");
     let to_json = |c: &MsgCase| serde_json::to_value(c).unwrap();
     ctx.run_generated(
         "layout",
